@@ -19,3 +19,15 @@ chk("C19","fault_enumeration",
  "every combination of WAL contents, eligible set, per-file archive fault and archive-directory fault up to n logs is set up on a real file system and run through the real WalCleaner (conservative mode) and WalArchiveRecovery; deleted files and recovered entries are compared with the original lines",
  "faults realised as type clashes (root ignores permission bits); configured directories as in production",
  "exhaustive fault-pattern enumeration against the real component","unitx","DESIGN.md §3 C19")
+chk("C07","exploration",
+ "product-mode enumeration: rows built from per-type value alphabets (all pairs of alphabet positions sharing a zone) x 6 storage tiers x 23 QUERY/REPLAY RETURN variants; every returned cell compared with the stored value per declared type, core fields and projection checked; answers compared across tiers",
+ "numbers compare numerically; null/absent optionals interchangeable; exact-case known findings in known/C07.*.json",
+ "bounded exhaustive enumeration of values x storage tier x projection against an identity oracle and a cross-tier differential oracle","histx product mode","DESIGN.md §3 C07")
+chk("C09","exploration",
+ "every metric x BY list x PER granularity x filter x LIMIT combination of the stated alphabet is run in 8 storage layouts x 2-3 configurations on two-type data; each aggregate reply is compared with a fold over the rows the same storage state returns for the query without the aggregate clause (the property verbatim), and across layouts",
+ "calendar arithmetic written independently (UTC, Monday weeks); exact-case known findings in known/C09.*.json",
+ "bounded exhaustive enumeration of aggregate queries x layouts; oracle = fold over the system's own selection","histx product mode","DESIGN.md §3 C09")
+chk("C10","exploration",
+ "sort field x direction x (LIMIT, OFFSET) grid x filters x 8 layouts x configurations on data with duplicate and missing sort keys; each reply must be sorted under the typed order, be the right positional slice (as a multiset of sort keys) of the same state's unordered selection, contain no event twice; OFFSET without LIMIT must be rejected",
+ "byte order for strings; rows with a missing key may come first or last; exact-case known findings in known/C10.*.json",
+ "bounded exhaustive enumeration of order/limit/offset queries x layouts against a reference slice of the system's own selection","histx product mode","DESIGN.md §3 C10")
